@@ -293,6 +293,10 @@ func genPrio(engine, prop string, r *simrt.SplitMix) *PrioSc {
 		if engine == "prio1" && r.Intn(3) == 0 {
 			sc.Class = "dynamic"
 		}
+
+		if engine == "simple1" && r.Intn(4) == 0 {
+			sc.Class = "stop" // a rough stop overlapping a pending GracefulStop
+		}
 	case "C02":
 		if engine == "prio1" && r.Intn(3) == 0 {
 			sc.Class = "dynamic"
@@ -680,7 +684,7 @@ func genPrio(engine, prop string, r *simrt.SplitMix) *PrioSc {
 			}
 		}
 
-		if r.Intn(3) == 0 {
+		if r.Intn(3) == 0 || prop == "C07" {
 			ns, steps := wait()
 			sc.Ctl = append(sc.Ctl, PAction{WaitNs: ns, WaitSteps: steps, Kind: "graceful"})
 		}
